@@ -372,11 +372,12 @@ const (
 	c05Cut
 	c05Adversarial
 	c05OverLimitCount
+	c05CmdField
 	c05NumModes
 )
 
 var c05ModeNames = []string{"none", "single_byte_every_offset", "multi_byte_corruption", "wrong_magic", "length_field_mismatch", "length_above_limit", "unknown_command",
-	"two_frames_spliced", "garbage_stream", "early_eof_or_io_error", "damaged_payload_valid_checksum", "count_above_message_limit"}
+	"two_frames_spliced", "garbage_stream", "early_eof_or_io_error", "damaged_payload_valid_checksum", "count_above_message_limit", "command_field_corruption"}
 
 func init() {
 	kernel.Register(&kernel.Check{
@@ -385,13 +386,13 @@ func init() {
 			"(must equal the model frame) and read back by ReadMessage from a simulated stream delivering 1..k bytes per Read; then one fault mode: every offset of the frame corrupted by one byte (enumerated for frames <= 600 bytes, header always complete), " +
 			"random multi-byte corruption, wrong magic, length field larger/smaller than the payload, length above the 30 MiB limit (allocation measured), unknown command with valid checksum, two frames spliced back to back, garbage streams, " +
 			"early EOF / I/O error at every byte (frames <= 300 bytes), damaged payload under a valid checksum (truncation, flips, counts set to boundary values), inv/addr lists above the 64-entry limit. The expected verdict comes from a model frame reader: " +
-			"anything but a header-valid, checksum-valid frame with a known command must be rejected; a corrupted command field is accepted only as the command it then names (C-string or NUL-trimmed reading). evaluations = ReadMessage calls judged. " +
+			"anything but a header-valid, checksum-valid frame with a known command must be rejected; each of the 12 command bytes set to 0x01/0x20/0x80/0xff/random and multi-byte garbage after the terminating NUL of the name (all kinds); a command field is accepted only if it is exactly a known name followed only by NUL bytes, and then as that command. evaluations = ReadMessage calls judged. " +
 			"Non-trivial: a non-empty payload, a fault fired and the verdict was checked; distinct by (kind, fault, verdict digest)",
 		Real:        []string{"p2pserver/message/types WriteMessage/ReadMessage/MakeEmptyMessage and all 16 message types", "p2pserver/common.Checksum", "core/types decoders reached through tx/block/headers frames", "ConsensusPayload (de)serialisation"},
 		Stub:        []string{"TCP link (simulated reader: chunking, stalls, injected I/O error, early EOF)", "peer / message router (frames are decoded, not dispatched)"},
 		Assumptions: []string{"checksum collisions (2^-32 per corrupted payload) are decided by the model reader, not assumed away", "allocation guard: ReadMessage may allocate at most the payload limit (30 MiB) + 1 MiB before it verifies the checksum; the figure comes from the task statement, the property text only promises rejection", "counts in (2^16, 2^46) reaching an unguarded make() in the transaction decoder are not executed (process abort); counted as dangerous_count_not_executed"},
 		QuickRuns:   1200, ThoroughRuns: 100000, QuickCap: 60, ThoroughCap: 800,
-		RequiredProbes: []string{"kind_version", "kind_verack", "kind_getaddr", "kind_addr", "kind_ping", "kind_pong", "kind_getheaders", "kind_headers", "kind_inv", "kind_getdata", "kind_block", "kind_tx", "kind_consensus", "kind_getblocks", "kind_notfound", "kind_disconnect", "cmd_corrupted_to_other_known_command", "cmd_padding_corrupted", "length_consumes_next_frame", "length_above_limit_rejected", "checksum_field_corrupted", "short_read_inside_header", "spliced_second_frame_ok", "payload_count_huge"},
+		RequiredProbes: []string{"kind_version", "kind_verack", "kind_getaddr", "kind_addr", "kind_ping", "kind_pong", "kind_getheaders", "kind_headers", "kind_inv", "kind_getdata", "kind_block", "kind_tx", "kind_consensus", "kind_getblocks", "kind_notfound", "kind_disconnect", "cmd_corrupted_to_other_known_command", "cmd_padding_corrupted", "cmd_padding_corruption_rejected", "cmd_garbage_after_nul_rejected", "length_consumes_next_frame", "length_above_limit_rejected", "checksum_field_corrupted", "short_read_inside_header", "spliced_second_frame_ok", "payload_count_huge"},
 		Generate:       genC05,
 		Execute:        execC05,
 		NoMinimise:     noMin,
@@ -516,27 +517,33 @@ func (c *c05ctx) judge(label string, stream []byte, rd io.Reader, orig *msgCase,
 		}
 		return nil, true
 	}
-	// header valid and checksum valid: the command field decides
+	// header valid and checksum valid: the command field decides. It must be exactly a known
+	// command name followed only by NUL bytes; anything else (unknown name, bytes after the
+	// terminating NUL) is an unknown command and must be rejected.
 	n1, n2 := cstr(cmdField), trimmed(cmdField)
-	if !knownCmd(n1) && !knownCmd(n2) {
+	if !knownCmd(n2) {
 		if err == nil {
-			c.fail("unknown-command-accepted", "%s: command field %q names no message kind but ReadMessage returned %T", label, cmdField[:], got)
+			if knownCmd(n1) {
+				c.fail("command-field-garbage-after-nul-accepted", "%s: command field %q is %q followed by non-NUL bytes, not a command name, but ReadMessage returned %T", label, cmdField[:], n1, got)
+			} else {
+				c.fail("unknown-command-accepted", "%s: command field %q names no message kind but ReadMessage returned %T", label, cmdField[:], got)
+			}
 			return nil, false
 		}
 		return nil, true
 	}
 	if err != nil {
-		if orig != nil && bytes.Equal(payload, orig.payload) && n2 == orig.cmd && n1 == orig.cmd {
+		if orig != nil && bytes.Equal(payload, orig.payload) && n2 == orig.cmd {
 			c.fail("undamaged-frame-rejected", "%s: intact %s frame rejected: %v", label, orig.cmd, err)
 			return nil, false
 		}
-		return nil, true // payload does not parse as the named kind / padding corruption rejected: clean error
+		return nil, true // payload does not parse as the named kind: clean error
 	}
 	if got == nil {
 		c.fail("nil-message-without-error", "%s: ReadMessage returned neither message nor error", label)
 		return nil, false
 	}
-	if t := got.CmdType(); t != n1 && t != n2 {
+	if t := got.CmdType(); t != n2 {
 		c.fail("message-kind-differs-from-command", "%s: command field names %q but a %q message was returned", label, n2, t)
 		return nil, false
 	}
@@ -627,6 +634,36 @@ func execC05(run *kernel.Run) {
 		faultFired := false
 		fire := func(kind string) { run.Fault(kind); faultFired = true }
 
+		// command-field corruption: set one byte of the 12-byte field / fill the padding with garbage
+		nameLen := len(mc.cmd)
+		cmdCase := func(label string, d []byte, sub uint64) bool {
+			got, ok := c.judge(label, d, rdr(d, -1, sub), mc, false)
+			if !ok {
+				return false
+			}
+			var cf [12]byte
+			copy(cf[:], d[4:16])
+			if cstr(cf) == mc.cmd && trimmed(cf) != mc.cmd && got == nil {
+				run.Probe("cmd_padding_corruption_rejected")
+			}
+			if got != nil && got.CmdType() != mc.cmd {
+				run.Probe("cmd_corrupted_to_other_known_command")
+			}
+			return true
+		}
+		if mode != c05OverLimitCount && nameLen < 11 { // in every step: two bytes of the padding after the terminating NUL
+			for j := 0; j < 2; j++ {
+				o := 4 + nameLen + 1 + rng.Intn(11-nameLen)
+				d := copyB(frame)
+				d[o] = []byte{0x01, 0x20, 0x80, 0xff, byte(1 + rng.Intn(255))}[rng.Intn(5)]
+				fire("byte_in_command")
+				run.Probe("cmd_padding_corrupted")
+				if !cmdCase(fmt.Sprintf("%s padding byte@%d=%02x", mc.cmd, o, d[o]), d, uint64(o)+3000) {
+					break
+				}
+			}
+		}
+
 		switch mode {
 		case c05EnumByte:
 			var offs []int
@@ -676,8 +713,6 @@ func execC05(run *kernel.Run) {
 				if got != nil && o >= 4 && o < 16 {
 					if got.CmdType() != mc.cmd {
 						run.Probe("cmd_corrupted_to_other_known_command")
-					} else {
-						run.Probe("cmd_padding_flip_accepted")
 					}
 				}
 			}
@@ -697,6 +732,54 @@ func execC05(run *kernel.Run) {
 				}
 				if got != nil {
 					run.Probe("cmd_corrupted_to_other_known_command")
+				}
+			}
+		case c05CmdField:
+			for o := 4; o < 16; o++ {
+				for vi, v := range []byte{0x01, 0x20, 0x80, 0xff, byte(1 + rng.Intn(255))} {
+					if v == frame[o] {
+						continue
+					}
+					d := copyB(frame)
+					d[o] = v
+					fire("byte_in_command")
+					if o-4 > nameLen {
+						run.Probe("cmd_padding_corrupted")
+					}
+					if !cmdCase(fmt.Sprintf("%s cmd byte@%d=%02x", mc.cmd, o, v), d, uint64(o*8+vi)+3100) {
+						break
+					}
+				}
+			}
+			// multi-byte garbage after the first NUL (the terminating NUL stays in place)
+			for j := 0; j < 16 && nameLen < 11; j++ {
+				d := copyB(frame)
+				from := 4 + nameLen + 1 + rng.Intn(11-nameLen)
+				to := from + 1 + rng.Intn(16-from)
+				nz := false
+				for o := from; o < to; o++ {
+					d[o] = byte(rng.Intn(256))
+					if j%4 == 0 {
+						d[o] = byte(1 + rng.Intn(255))
+					}
+					nz = nz || d[o] != 0
+				}
+				if !nz {
+					d[from] = 0x01
+				}
+				if j%5 == 4 { // another known name after the NUL
+					var cf [12]byte
+					copy(cf[:], mc.cmd)
+					copy(cf[nameLen+1:], p2pKinds[rng.Intn(len(p2pKinds))])
+					copy(d[4:16], cf[:])
+				}
+				fire("garbage_after_command_nul")
+				got, ok := c.judge(fmt.Sprintf("%s garbage after NUL [%d,%d)", mc.cmd, from, to), d, rdr(d, -1, uint64(j)+3300), mc, false)
+				if !ok {
+					break
+				}
+				if got == nil {
+					run.Probe("cmd_garbage_after_nul_rejected")
 				}
 			}
 		case c05MultiByte:
